@@ -123,7 +123,13 @@ def _job_worker(job):
     finally:
         if run.proc is not None and run.proc.poll() is None:
             run.proc.kill()
-        if run.error and not out.get("truncated"):
+        if (run.error and job.get("overflow_ok") and "Overflow when computing" in run.error
+                and out["distinct"] > 0):
+            # a "power" simulation (batches of respondents) ends where the spec's exact
+            # rational arithmetic leaves TLC's 32-bit integers; what was emitted before
+            # stands, the bound is reported in the evidence
+            out["stopped_at_overflow"] = True
+        elif run.error and not out.get("truncated"):
             out["error"] = out["error"] or run.error
         out["generated"] = run.generated
         out["tlc_distinct"] = run.distinct
@@ -280,7 +286,8 @@ def finish(prop_id, tier, seed, level, results, t0, rule, assumptions, feature_f
         "rule": rule, "samples": samples or [{"note": "no sample"}],
         "features": features,
         "scenarios": [{"scn": r["scn"], "mode": r["mode"], "states": r["tlc_distinct"] or r["distinct"],
-                       "replayed": r["distinct"], "wall_s": round(r.get("wall_s", 0), 1)}
+                       "replayed": r["distinct"], "wall_s": round(r.get("wall_s", 0), 1),
+                       **({"stopped_at_32bit_overflow": True} if r.get("stopped_at_overflow") else {})}
                       for r in results],
         "known_findings_seen": {"%s|%s" % k: v for k, v in known_hit.items()},
         "drift": drifts,
